@@ -6,6 +6,7 @@ import (
 	"os"
 	"testing"
 
+	"github.com/Fantom-foundation/lachesis-base/inter/idx"
 	"github.com/Fantom-foundation/lachesis-base/inter/pos"
 	"pgregory.net/rapid"
 
@@ -24,13 +25,29 @@ func TestMain(m *testing.M) {
 
 var st = stats.New("forklesscause")
 
-func prop(t *rapid.T) {
-	ids, ws, wclass := dagen.GenValidators(t)
+func prop(t *rapid.T) { propWith(t, "") }
+
+// propShapes: the same property on the rare large shapes (65-70 validators with forkers at the end of the validators
+// order, several hundred events without a quorum, 66-70 same-sequence events of one validator).
+func propShapes(t *rapid.T) { propWith(t, dagen.DrawShape(t, "many_validators")) }
+
+func propWith(t *rapid.T, shape string) {
+	var ids []idx.ValidatorID
+	var ws []pos.Weight
+	var wclass string
+	switch shape {
+	case "":
+		ids, ws, wclass = dagen.GenValidators(t)
+	case "many_validators":
+		ids, ws, wclass = dagen.GenValidatorsMany(t)
+	default:
+		ids, ws, wclass = dagen.GenValidatorsN(t, rapid.IntRange(5, 9).Draw(t, "nValidatorsShape"))
+	}
 	mode := dagen.AnyFork
 	if rapid.Bool().Draw(t, "minorityForks") {
 		mode = dagen.MinorityFork
 	}
-	ref, info := dagen.GenDAG(t, 1, ids, ws, dagen.Params{MinEvents: 8, MaxEvents: 70, Forks: mode, NonMaxFrames: false})
+	ref, info := dagen.GenDAG(t, 1, ids, ws, dagen.Params{MinEvents: 8, MaxEvents: 70, Forks: mode, NonMaxFrames: false, Shape: shape})
 	n := len(ref.Evs)
 	cfgA, nameA := vidx.DrawConfig(t, "cfgA")
 	cfgB, _ := vidx.DrawConfig(t, "cfgB")
@@ -89,6 +106,9 @@ func prop(t *rapid.T) {
 		}
 	} else {
 		k := rapid.IntRange(200, 500).Draw(t, "nQueries")
+		if shape != "" {
+			k *= 8
+		}
 		for q := 0; q < k; q++ {
 			query(rapid.IntRange(0, n-1).Draw(t, "qa"), rapid.IntRange(0, n-1).Draw(t, "qb"), "full index")
 		}
@@ -197,6 +217,9 @@ func prop(t *rapid.T) {
 	if reused {
 		classes = append(classes, "index_reused_after_reset")
 	}
+	if info.Shape != "" {
+		classes = append(classes, "shape_"+info.Shape)
+	}
 	st.Case(stats.Hash(scen.Describe(ref), ref.Weights), partialFork && trueCnt > 0 && falseCnt > 0, classes...)
 	st.Class("pairs", int64(pairs))
 	st.Class("pairs_true", int64(trueCnt))
@@ -214,3 +237,5 @@ func seqN(n int) []int {
 }
 
 func TestC05ForklessCause(t *testing.T) { rapid.Check(t, prop) }
+
+func TestC05Shapes(t *testing.T) { rapid.Check(t, propShapes) }
